@@ -5,6 +5,8 @@ package streams
 import (
 	"fmt"
 	"math/rand"
+	"os"
+	"runtime/debug"
 )
 
 // Case is one line of a stream.
@@ -52,6 +54,9 @@ func Recovered(f func()) (panicked bool, msg string) {
 		if e := recover(); e != nil {
 			panicked = true
 			msg = fmt.Sprint(e)
+			if os.Getenv("VERIF_STACK") != "" {
+				fmt.Fprintf(os.Stderr, "panic: %v\n%s\n", e, debug.Stack())
+			}
 		}
 	}()
 	f()
